@@ -108,6 +108,16 @@ CHECKS = {
                      'INVALID_KE_PAYLOAD retries); crash of either side or partition after each of 16 scenario steps; idle IKE_SAs '
                      'through lifetime, colliding rekeys and the hard deadline; seeded walks beyond.',
                 note='the clock is virtual; bounds come from the class constants and the 5 s / 30 s figures of the statement'),
+    'C03': dict(level='exploration', design='3 C03',
+                technique='scripted prefixes drive a real IKE_SA into every keyed state and role; Hypothesis-generated and '
+                          'exhaustively swept forgeries (reference-encoded cleartext, bit flips, truncations, extensions, foreign '
+                          'keys, reflection, old-SA replay) are delivered through the real main_loop; oracle = snapshot equality '
+                          '+ silence, followed by a positive control with the pending authentic traffic',
+                text='15 keyed states x 2 roles; forged cleartext over exchange type x request/response x I flag x 7 Message IDs x 9 '
+                     'payload lists; every byte x bit flip (thorough) and every truncation length of authentic messages; nothing '
+                     'may move: state, counters, CHILD_SAs, deadlines, cached response, table, SAD, netlink log; no reply except the '
+                     'stored IKE_SA_INIT response in INIT_RES_SENT.',
+                note='byte x bit sweeps are exhaustive per representative message; IKE_SA_INIT requests are judged at IKE_SA level'),
 }
 
 NOT_YET = 'check not built yet in this session (planned, see DESIGN.md section 8)'
